@@ -59,6 +59,12 @@ func lemmaObligation(P *Program, l *Lemma) (o *Obligation, err error) {
 		}
 	}()
 	e := newEnc(P)
+	if len(l.Reveals) > 0 {
+		e.revealed = map[string]bool{}
+		for _, r := range l.Reveals {
+			e.revealed[r] = true
+		}
+	}
 	fv := &FuncVC{P: P, e: e, name: "lemma:" + l.Name, oblCount: map[string]int{}, assumptions: map[string]bool{}}
 	st := &State{kind: sEntry, h: map[string]Term{}, fv: fv}
 	env := &Env{e: e, vars: map[string]TV{}, st: st, old: st, pkg: l.Pkg, alloc0: "0"}
@@ -538,6 +544,12 @@ func inductionObligations(P *Program, l *Lemma) (obls []*Obligation, err error) 
 	}
 	mk := func(kind string, hyp Expr, goal Expr) *Obligation {
 		e := newEnc(P)
+		if len(l.Reveals) > 0 {
+			e.revealed = map[string]bool{}
+			for _, r := range l.Reveals {
+				e.revealed[r] = true
+			}
+		}
 		fv := &FuncVC{P: P, e: e, name: "lemma:" + l.Name, oblCount: map[string]int{}, assumptions: map[string]bool{}, oblBlk: -1}
 		st := &State{kind: sEntry, h: map[string]Term{}, fv: fv}
 		env := &Env{e: e, vars: map[string]TV{}, st: st, old: st, pkg: l.Pkg, alloc0: "0"}
